@@ -54,6 +54,12 @@ CLAIMS = {
  "C18": ("structural necessary conditions: exactly one notifier call per admitted subscribe/unsubscribe (after the trie insert), broker notifier maps to the right presence event for direct subscribers; presence.Notify is a single blocking send and the queue has one consumer publishing synchronously (order preservation); status lookup is the unfiltered trie lookup reporting id/username of connections; changes enable/cancel go through PubSub with the same presence-ssid event; the notification stream as a function of history is not decided",
          "Go channel FIFO; go/ssa",
          "static analysis: SSA guard cut-sets two-sided, effect scan (go/select/send), single-consumer count over the call graph, argument provenance"),
+ "C19": ("structural necessary conditions: message codec field order/widths on both sides and error discipline of the decoder; id layout table of NewID against its readers (inverted atomic sequence, nonce, word offsets, length); Peer.frame lock discipline with a fresh queue on swap and append on Send; send loop sends each Split chunk once in order and only stops on an empty chunk; Split counts all variable fields, only splits at i>0, returns f[:i]/f[i:]; id uniqueness across processes is not decided",
+         "trusts go/ssa; kelindar/binary primitives; sync/atomic",
+         "static analysis: codec op-sequence tables, affine offset tables, lockset dataflow, allocation freshness, SSA guard cut-sets, loop-exit analysis"),
+ "C20": ("structural necessary conditions: every fixed-offset access in the license parsers is covered by a dominating length test; Parse strips exactly the dispatched two-character suffix; sibling agreement of the three DecryptKey (32-byte refusal before decode, decode error returned, key = decoded prefix) and EncryptKey (RawURLEncoding of 24 bytes); V1 writer/reader byte-range table and version suffixes; the base64 table accepts exactly the URL-safe alphabet and unknown bytes are an error; cipher bijectivity is not decided",
+         "trusts go/ssa; encoding/base64",
+         "static analysis: constant-bounds vs dominating length-test rule, sibling cross-check, offset tables, store-set analysis of the decode table"),
 }
 
 NOT_YET = "no sound structural rule implemented yet in this static-analysis framework (see DESIGN.md §4 for the clauses planned); behavioural clauses quantify over runtime values"
